@@ -85,6 +85,7 @@ package grpcutil
 //@   requires p >= 0 && scanSt(s, p) == 0 && s[p] == 37 && hexByte(s[p+1]) && hexByte(s[p+2])
 //@   ensures scanSt(s, p + 1) == 2 && scanSt(s, p + 2) == 1 && scanSt(s, p + 3) == 0
 //@ lemma hexDigitIsHex(d int)
+//@   lemmaonly
 //@   requires 0 <= d && d < 16
 //@   ensures hexByte(hexDigit(d))
 //@ lemma pctAcceptedStep(msg string, out string, k int)
